@@ -442,15 +442,17 @@ def on_surface(ctx):
         res.fail(ctx.finding('ON-SURFACE', nr, loop[0],
                              'sag is not evaluated at the current (x, y) of '
                              'the iterate', construct='Newton sag arguments'))
-    brk = [n for n in ast.walk(loop[0]) if isinstance(n, ast.If) and
-           any(isinstance(b, ast.Break) for b in n.body)]
-    if brk and 'tol' in unparse(brk[0].test) and 'max' in unparse(brk[0].test) \
-            and '<' in unparse(brk[0].test):
-        res.ok('iteration stops when max|dz| < tol (batch-wide)')
+    from ..match import find_seq
+    if find_seq(loop[0], ['$dz = $p[:, 2] - $zs',
+                          'if np.max(np.abs($dz)) < self.tol:\n    break']):
+        res.ok('iteration stops when max over the batch of |dz| < tol')
     else:
-        res.fail(ctx.finding('ON-SURFACE', nr, loop[0],
-                             'iteration does not stop on max|dz| < tol',
-                             construct='Newton stopping rule'))
+        res.fail(ctx.finding(
+            'ON-SURFACE', nr, loop[0],
+            'the iteration does not stop on max(|dz|) < tol over the whole '
+            'batch: rays whose residual is still large (e.g. negative) are '
+            'left unconverged when another ray of the batch has converged',
+            construct='Newton stopping rule'))
     # returned distance = |intersection - start|
     rets = [s for s in nr.node.body if isinstance(s, ast.Return)]
     rsrc = unparse(rets[0].value) if rets else ''
